@@ -379,6 +379,14 @@ def step (line : String) : String :=
     match parseCfg cs, parseNatList ks, parseCVList (if vs == "-" then "" else vs), parseName sp with
     | some c, some ks, some vs, some sp => (Con.getattr c (ks, vs) sp).render
     | _, _, _, _ => "bad-op"
+  | ["srcgetattr", cs, ks, vs, sp] =>
+    -- the same access through the *translated* MultiVector.__getattr__
+    match parseCfg cs, parseNatList ks, parseCVList (if vs == "-" then "" else vs), parseName sp with
+    | some c, some ks, some vs, some sp =>
+      match Src.mv_getattr (SrcEq.algOf c) (ks.map Int.ofNat) vs (SrcEq.pyName sp) with
+      | .ok v => v.render
+      | .error e => "raise:" ++ e
+    | _, _, _, _ => "bad-op"
   | "srcfname" :: cs :: pre :: keys =>
     -- the same name built from the *translated* MultiVector.type_name
     match parseCfg cs, keys.mapM parseNatList with
